@@ -77,6 +77,72 @@ for trial in range(40):
     if abs(prefactor(e, 1.7 * d) - 1.7 ** 4 * p) > 1e-9 * max(1.0, abs(p)):
         bad.append("prefactor does not scale with the fourth power of a common dipole factor")
 
+# ---- whole calculated response (mock line shapes): additivity for uncoupled molecules, total = R + NR, rotation, scaling -------------
+try:
+    import copy
+    import quantarhei as qr
+    from quantarhei.spectroscopy.mocktwodcalculator import MockTwoDResponseCalculator
+    from quantarhei.spectroscopy import X, Y
+
+    def response(energies, dips, J, t2val, pol=(X, X, X, X)):
+        with qr.energy_units("1/cm"):
+            mols_ = []
+            for e_, d_ in zip(energies, dips):
+                m_ = qr.Molecule([0.0, e_])
+                m_.set_transition_width((0, 1), 150.0)
+                m_.set_dipole(0, 1, list(d_))
+                mols_.append(m_)
+            ag = qr.Aggregate(molecules=mols_)
+            for (i_, j_), v_ in J.items():
+                ag.set_resonance_coupling(i_, j_, v_)
+        ag2 = copy.copy(ag)
+        ag.build(mult=1)
+        H_ = ag.get_Hamiltonian()
+        t2a = qr.TimeAxis(0.0, 3, 10.0)
+        with qr.eigenbasis_of(H_):
+            K_ = qr.qm.ProjectionOperator(0, 0, dim=H_.dim)
+        L_ = qr.qm.LindbladForm(H_, qr.qm.SystemBathInteraction(sys_operators=[K_], rates=[0.0]))
+        eU = qr.EvolutionSuperOperator(time=t2a, ham=H_, relt=L_)
+        eU.set_dense_dt(10)
+        eU.calculate(show_progress=False)
+        calc = MockTwoDResponseCalculator(qr.TimeAxis(0.0, 50, 10.0), t2a, qr.TimeAxis(0.0, 50, 10.0))
+        with qr.energy_units("1/cm"):
+            calc.bootstrap(rwa=12100.0)
+        ag2.build(mult=2)
+        ag2.diagonalize()
+        lab = qr.LabSetup()
+        lab.set_pulse_polarizations(pulse_polarizations=pol[:3], detection_polarization=pol[3])
+        tw = calc.calculate_one_system(t2val, ag2, eU, lab)
+        return {sg: numpy.array(tw.get_TwoDSpectrum(dtype=sg).data) for sg in (qr.signal_REPH, qr.signal_NONR, qr.signal_TOTL)}
+
+    dA, dB = numpy.array([1.0, 0.8, 0.8]), numpy.array([0.8, -0.3, 0.5])
+    for t2v in (0.0, 20.0):
+        for pol in ((X, X, X, X), (X, X, Y, Y)):
+            both = response([12000.0, 12300.0], [dA, dB], {(0, 1): 0.0}, t2v, pol)
+            one = response([12000.0], [dA], {}, t2v, pol)
+            two = response([12300.0], [dB], {}, t2v, pol)
+            scale_ = max(1e-30, abs(both[qr.signal_TOTL]).max())
+            for sg in both:
+                dev = abs(both[sg] - one[sg] - two[sg]).max() / scale_
+                if dev > 1e-9:
+                    bad.append("uncoupled dimer, t2 = %g, polarisations %s: %s differs from the sum of the responses of the two "
+                               "molecules (relative deviation %.3e)" % (t2v, "XXXX" if pol[2] is X else "XXYY", sg, dev))
+            dev = abs(both[qr.signal_TOTL] - both[qr.signal_REPH] - both[qr.signal_NONR]).max() / scale_
+            if dev > 1e-12:
+                bad.append("uncoupled dimer, t2 = %g: total signal is not rephasing + non-rephasing (%.3e)" % (t2v, dev))
+    base = response([12000.0, 12300.0], [dA, dB], {(0, 1): 90.0}, 10.0)
+    Rm = rot(numpy.array([0.3, -0.5, 0.8]), 1.1)
+    rotd = response([12000.0, 12300.0], [Rm @ dA, Rm @ dB], {(0, 1): 90.0}, 10.0)
+    scl = response([12000.0, 12300.0], [1.3 * dA, 1.3 * dB], {(0, 1): 90.0}, 10.0)
+    sc0 = abs(base[qr.signal_TOTL]).max()
+    if abs(rotd[qr.signal_TOTL] - base[qr.signal_TOTL]).max() > 1e-9 * sc0:
+        bad.append("coupled dimer: the response changes under a common rotation of all dipoles (%.3e)"
+                   % (abs(rotd[qr.signal_TOTL] - base[qr.signal_TOTL]).max() / sc0))
+    if abs(scl[qr.signal_TOTL] - 1.3 ** 4 * base[qr.signal_TOTL]).max() > 1e-9 * sc0:
+        bad.append("coupled dimer: the response does not scale with the fourth power of a common dipole factor")
+except Exception as e:      # noqa
+    bad.append("whole-response part raised %s: %s" % (type(e).__name__, str(e)[:160]))
+
 # ---- mock calculator: shape of one pathway = prefactor x line shape at the pathway frequencies (rephasing on the negated axis) ------
 try:
     import quantarhei as qr
